@@ -3,7 +3,9 @@ package main
 import (
 	"context"
 	"fmt"
+	"math"
 	"math/rand"
+	"strconv"
 	"strings"
 
 	"google.golang.org/grpc/status"
@@ -15,7 +17,32 @@ import (
 	"github.com/smart-core-os/sc-golang/verifharness/lib"
 )
 
-// percentages are multiples of 1/4 in a small range: exactly representable, sums exact in float32.
+// Percentages are arbitrary finite float32 values; they travel to the model as their IEEE-754 bit
+// pattern and the model adds them with float32 addition, so the tie is exact including rounding.
+func pctBits(f float32) string { return strconv.FormatUint(uint64(math.Float32bits(f)), 10) }
+
+// randPct: quarter steps 55%, thousandths 25%, arbitrary 20% (never NaN, infinite or negative zero).
+func randPct(rng *rand.Rand) float32 {
+	switch r := rng.Intn(100); {
+	case r < 55:
+		return float32(rng.Intn(401)) / 4
+	case r < 80:
+		return float32(rng.Intn(100001)) / 1000
+	}
+	return float32(rng.Float64() * 100)
+}
+
+func randDelta(rng *rand.Rand) float32 {
+	if rng.Intn(2) == 0 {
+		return float32(rng.Intn(81)-40) / 4
+	}
+	d := float32(rng.Float64()*80 - 40)
+	if d == 0 {
+		return 0
+	}
+	return d
+}
+
 type fanPreset struct {
 	Name string  `json:"name"`
 	Pct  float32 `json:"pct"`
@@ -51,7 +78,7 @@ func encStr(s string) string {
 	return esc(s)
 }
 func (s fanState) enc() string {
-	return fmt.Sprintf("%s,%s,%d,%d", f32s(s.Pct), encStr(s.Preset), s.Index, s.Dir)
+	return fmt.Sprintf("%s,%s,%d,%d", pctBits(s.Pct), encStr(s.Preset), s.Index, s.Dir)
 }
 
 func (c *fanSeq) presets() []fanPreset {
@@ -77,7 +104,7 @@ func (c *fanSeq) Line() string {
 	sb.WriteString("fan.seq ")
 	var ps []string
 	for _, p := range c.presets() {
-		ps = append(ps, encStr(p.Name)+":"+f32s(p.Pct))
+		ps = append(ps, encStr(p.Name)+":"+pctBits(p.Pct))
 	}
 	sb.WriteString(encList(ps) + " " + c.init0().enc())
 	for _, o := range c.Ops {
@@ -198,7 +225,16 @@ func fanSpec(ps []fanPreset, old fanState, o fanOp) (want fanState, ok bool) {
 	if inMask(o.Mask, "preset_index") {
 		w.Index = o.Index
 		if o.Relative {
-			w.Index += old.Index
+			// the true integer sum, kept inside int32 (a step of +MaxInt32 means "to the last preset",
+			// it must not wrap around to the first)
+			sum := int64(o.Index) + int64(old.Index)
+			if sum > math.MaxInt32 {
+				sum = math.MaxInt32
+			}
+			if sum < math.MinInt32 {
+				sum = math.MinInt32
+			}
+			w.Index = int32(sum)
 		}
 	}
 	if inMask(o.Mask, "direction") {
@@ -289,6 +325,8 @@ func (c *fanSeq) Check(m *lib.Monitor, code string) {
 		if got != want {
 			cls := "precedence"
 			switch {
+			case o.Relative && (o.Index > 1<<30 || o.Index < -(1<<30)):
+				cls = "relative-index-overflow"
 			case got.Dir != want.Dir || (o.Mask != nil && got == fanSpecIgnoringMask(ps, old, o)):
 				cls = "update-mask-ignored"
 			case fanConsistent(ps, old) && !fanConsistent(ps, got):
@@ -314,7 +352,7 @@ func init() {
 	decoders["fan/seq"] = decoder[fanSeq]()
 	builders = append(builders, func(f lib.Flags, res *lib.Result, rng *rand.Rand) []*section {
 		s := &section{name: "fan/seq",
-			tie: res.Tie("fanspeed.ModelServer.UpdateFanSpeed sequences", "K1", "random: DefaultPresets 40% / WithPresets 1..5 presets with percentages k/4 (10% duplicate percentage, 5% duplicate name, 3% empty name, 2% empty list) 60%; default initial fan speed 70% / random initial 30%; 1..8 updates: written fields chosen among percentage/preset/preset_index/direction, absolute 65% / relative 35%, update mask = exactly the written fields 55% / none 35% / other subset 10%; preset names: configured 77%, near-miss of a configured name (case variant, leading/trailing space or no-break space, prefix, extension, unicode look-alike) 13%, unrelated 10%; indices in -3..len+2; excluded points (a write that clears the preset of a fan that has one) are generated on purpose (about 25% of ops); non-trivial = has an op; distinct by request line"),
+			tie: res.Tie("fanspeed.ModelServer.UpdateFanSpeed sequences", "K1", "random: DefaultPresets 40% / WithPresets 1..5 presets with float32 percentages (quarter steps 55%, thousandths 25%, arbitrary 20%; 10% duplicate percentage, 5% duplicate name, 3% empty name, 2% empty list) 60%; default initial fan speed 70% / random initial 30%; 1..8 updates: written fields chosen among percentage/preset/preset_index/direction, absolute 65% / relative 35%, update mask = exactly the written fields 55% / none 35% / other subset 10%; preset names: configured 77%, near-miss of a configured name (case variant, leading/trailing space or no-break space, prefix, extension, unicode look-alike) 13%, unrelated 10%; indices in -3..len+2, relative index steps in -2..2 (8% at the int32 limits); excluded points (a write that clears the preset of a fan that has one) are generated on purpose (about 25% of ops); non-trivial = has an op; distinct by request line"),
 			mon: res.Monitor("fanspeed.precedence and consistency vs table lookup", "preset > index > percentage by table lookup, index clamped, fields outside the update mask unchanged, consistency (preset != '' => presets[index] = (preset, percentage); preset == '' => index = -1 and no preset has that percentage) preserved at every non-excluded write; unknown preset => InvalidArgument and no change; no panic with a non-empty preset list")}
 		n := f.N(2000, 25000)
 		for i := 0; i < n; i++ {
@@ -326,7 +364,7 @@ func init() {
 				}
 				c.Presets = []fanPreset{}
 				for j := 0; j < k; j++ {
-					p := fanPreset{Name: fmt.Sprintf("p%d", j), Pct: float32(rng.Intn(401)) / 4}
+					p := fanPreset{Name: fmt.Sprintf("p%d", j), Pct: randPct(rng)}
 					if j > 0 && rng.Intn(10) == 0 {
 						p.Pct = c.Presets[0].Pct
 					}
@@ -341,7 +379,7 @@ func init() {
 			}
 			ps := c.presets()
 			if rng.Intn(100) < 30 {
-				st := fanState{Pct: float32(rng.Intn(401)) / 4, Index: -1, Dir: int32(rng.Intn(3))}
+				st := fanState{Pct: randPct(rng), Index: -1, Dir: int32(rng.Intn(3))}
 				if len(ps) > 0 && rng.Intn(3) > 0 {
 					j := rng.Intn(len(ps))
 					st = fanState{Pct: ps[j].Pct, Preset: ps[j].Name, Index: int32(j), Dir: int32(rng.Intn(3))}
@@ -364,9 +402,9 @@ func init() {
 				for _, fld := range written {
 					switch fld {
 					case "percentage":
-						o.Pct = float32(rng.Intn(401)) / 4
+						o.Pct = randPct(rng)
 						if o.Relative {
-							o.Pct = float32(rng.Intn(81)-40) / 4
+							o.Pct = randDelta(rng)
 						}
 						if len(ps) > 0 && rng.Intn(3) == 0 && !o.Relative {
 							o.Pct = pick(rng, ps).Pct
@@ -385,6 +423,9 @@ func init() {
 						o.Index = int32(rng.Intn(len(ps)+6) - 3)
 						if o.Relative {
 							o.Index = int32(rng.Intn(5) - 2)
+							if rng.Intn(12) == 0 {
+								o.Index = pick(rng, []int32{math.MaxInt32, math.MaxInt32 - 1, math.MinInt32, math.MinInt32 + 1})
+							}
 						}
 					case "direction":
 						o.Dir = int32(rng.Intn(3))
